@@ -223,6 +223,8 @@ def decrypt_recipient(
         recipient: Recipient[t.Any],
         tag: bytes) -> bytes:
     cek: bytes
+    if not alg.direct_mode and recipient.encrypted_key is None:
+        raise DecodeError('Missing "encrypted_key" value')
     if alg.direct_mode:
         # 10.  When Direct Key Agreement or Direct Encryption are employed,
         # verify that the JWE Encrypted Key value is an empty octet
